@@ -112,9 +112,12 @@ impl FileStack {
 
                 let libpath = lib.path.join(&include.path);
                 debug!("searching for `{}` in `{}`", include.path, lib.path.display());
-                if fs::canonicalize(&libpath).is_ok() {
-                    debug!("adding include `{}` from directory", libpath.display());
-                    self.stack.push(libpath);
+                if let Ok(path) = fs::canonicalize(&libpath) {
+                    // Use the canonical path to ensure that the file is only parsed once.
+                    if !self.black_paths.contains(&path) {
+                        debug!("adding include `{}` from directory", libpath.display());
+                        self.stack.push(path);
+                    }
                     return Ok(());
                 }
             } else {
